@@ -586,11 +586,18 @@ top:
 	case LexerUnquote:
 		if r == '@' {
 			lexer.AppendToken(lexer.Token(TokenTildeAt, ""))
-		} else {
-			lexer.AppendToken(lexer.Token(TokenTilde, ""))
-			lexer.buffer.WriteRune(r)
+			lexer.state = LexerNormal
+			return nil
 		}
+		lexer.AppendToken(lexer.Token(TokenTilde, ""))
 		lexer.state = LexerNormal
+		switch r {
+		case '(', '[', '{', '"', '\'', '`', '~', '^', ' ', '\t', '\n', '\r':
+			// what is unquoted need not be a symbol: ~(f x) ~[a b] ~"s".
+			// The rune opens the next token; it is not part of an atom.
+			goto top
+		}
+		lexer.buffer.WriteRune(r)
 		return nil
 	case LexerFreshAssignOrColon:
 		lexer.state = LexerNormal
